@@ -12,7 +12,7 @@ RUNNER = "env PYWELLEN_DIR=%s python3 %s" % (PYDIR, os.path.join(core.VERIF, "py
 RULE = ("generated VCD files (all value kinds, delta cycles = several changes of one variable in one time step, first timestamp "
         "> 0, repeated timestamps) are opened with the pywellen extension module built from /repo; for every variable the driver "
         "queries all_changes, value_at_idx(i) for i in 0..len+1, value_at_time(t) for every table entry, every midpoint, before "
-        "the first and after the last entry, and time_table[i] for -len-2 <= i < len+2. Oracle: computed from the abstract "
+        "the first and after the last entry - in ascending order, in a random order and jumping between late, too-early and middle times on the same Signal object -, and time_table[i] for -len-2 <= i < len+2. Oracle: computed from the abstract "
         "history (ints for pure 0/1 values, strings otherwise, floats for reals); the Gallina model of the binding's logic is "
         "run on the same files. Non-trivial: a variable has a delta cycle or a query time strictly between two table entries; "
         "distinct files.")
@@ -80,6 +80,16 @@ def run(res, rng, tier, model_ok, replay=None):
             if table:
                 times.update([table[0], max(0, table[0] - 1), table[-1], table[-1] + 1, table[-1] + 1000])
             times = sorted(times)
+            # the same Signal object is queried in ascending order, then in a random order, then with jumps between late
+            # times, times before the first entry and times in between: an answer must not depend on the queries before it
+            shuffled = list(times)
+            rng.shuffle(shuffled)
+            jumps = []
+            if table:
+                for _ in range(6):
+                    jumps += [rng.choice(table[len(table) // 2:]) + rng.choice([0, 1]), max(0, table[0] - 1),
+                              rng.choice(table[:len(table) // 2 + 1]) + rng.choice([0, 1])]
+            times = times + shuffled + jumps
             exp = expected(sigs, steps, imp, idx, times)
             delta = any(len(set(e[0] for e in lst)) < len(lst) for lst in out.values())
             between = any(t not in table and table and table[0] < t < table[-1] for t in times)
